@@ -1114,3 +1114,14 @@ Proof.
   split; [intros loc; apply get_link_dollar|]. split; [intros rel; apply get_link_plain|].
   intros [H|H]; apply get_link_none; [left; exact H|right; exists base; exact H].
 Qed.
+
+(* System.fetchIntersphinxInventories: the loop over all configured inventories returns, whatever each one holds *)
+Lemma update_all_total (int_of : text -> option Z) (decompress : list N -> option (list N))
+      (decode_utf8 : list N -> option text) (fetches : list (text * option (list N))) :
+  forall links reps,
+    exists links' reps',
+      update_all (update (parse_line int_of) decompress decode_utf8) links reps fetches = Ok (links', reps').
+Proof.
+  induction fetches as [|[url data] rest IH]; intros links reps; cbn [update_all]; [eauto|].
+  destruct (update_total_any int_of decompress decode_utf8 links url data) as (l & r & ->). apply IH.
+Qed.
